@@ -11,9 +11,18 @@ Definition bytes_okb (l : bytes) : bool := forallb byte_okb l.
 
 Definition zlen {A} (l : list A) : Z := Z.of_nat (length l).
 
-(* Python slices data[:n] / data[n:] for n >= 0 *)
-Definition ztake {A} (n : Z) (l : list A) : list A := firstn (Z.to_nat n) l.
-Definition zdrop {A} (n : Z) (l : list A) : list A := skipn (Z.to_nat n) l.
+(* Python slices data[:n] / data[n:] for n >= 0 (negative bounds never occur in the
+   translated fragment).  Structural on the list, so a huge declared n costs nothing. *)
+Fixpoint ztake {A} (n : Z) (l : list A) : list A :=
+  match l with
+  | [] => []
+  | x :: r => if n <=? 0 then [] else x :: ztake (n - 1) r
+  end.
+Fixpoint zdrop {A} (n : Z) (l : list A) : list A :=
+  match l with
+  | [] => []
+  | x :: r => if n <=? 0 then l else zdrop (n - 1) r
+  end.
 
 (* data[i] with IndexError as None *)
 Definition znth (l : bytes) (i : Z) : option Z :=
